@@ -40,17 +40,19 @@ ALLOWED_ATTR_ASSIGN_IN = {"batch_norm": {"data"},        # running_mean.data = n
 class FrameScan(ast.NodeVisitor):
     """per function: which local names hold freshly allocated arrays (or views of them); flag in-place writes to anything else"""
 
-    def __init__(self, fname):
+    def __init__(self, fname, writers=None):
         self.fname = fname
         self.findings = []
         self.inplace_sites = 0
         self.functions = 0
+        self.writers = writers or {}     # private helper name -> positions of the parameters it writes into (interprocedural step: judged at its call sites)
 
     def scan_function(self, fn, outer_fresh=frozenset(), qual=""):
         self.functions += 1
         qual = (qual + "." if qual else "") + fn.name
         fresh = set(outer_fresh)
         params = {a.arg for a in fn.args.args + fn.args.kwonlyargs}
+        ordered_params = [a.arg for a in fn.args.args]
         if fn.args.vararg:
             params.add(fn.args.vararg.arg)
 
@@ -85,8 +87,11 @@ class FrameScan(ast.NodeVisitor):
                 return True      # result of a computation (allocation, arithmetic kernel, constructor)
             return False
 
-        def note(node, what, target):
-            self.findings.append({"file": self.fname, "function": qual, "line": node.lineno, "construct": what, "target": target})
+        def note(node, what, target, expr=None):
+            b = base_name(expr) if expr is not None else None
+            pidx = ordered_params.index(b.id) if isinstance(b, ast.Name) and b.id in ordered_params and b.id not in fresh else None
+            self.findings.append({"file": self.fname, "function": qual, "line": node.lineno, "construct": what, "target": target, "fn_name": fn.name, "param_index": pidx,
+                                  "private": fn.name.startswith("_") and not fn.name.startswith("__")})
 
         def handle_assign_targets(targets, value, node):
             for t in targets:
@@ -107,7 +112,7 @@ class FrameScan(ast.NodeVisitor):
                 elif isinstance(t, ast.Subscript):
                     self.inplace_sites += 1
                     if not is_fresh_expr(t.value):
-                        note(node, "subscript assignment", ast.unparse(t))
+                        note(node, "subscript assignment", ast.unparse(t), t.value)
                 elif isinstance(t, ast.Attribute):
                     pass        # attribute rebinding is not an in-place array write; tensor-state writes are checked separately
 
@@ -129,10 +134,10 @@ class FrameScan(ast.NodeVisitor):
                     if t.id not in fresh:
                         # ints/floats are immutable; flag only if the name is a parameter that may be an array
                         if t.id in params and t.id not in ("dimension", "axis", "s", "idx", "i", "j"):
-                            note(node, "augmented assignment to a parameter", t.id)
+                            note(node, "augmented assignment to a parameter", t.id, t)
                 elif isinstance(t, ast.Subscript):
                     if not is_fresh_expr(t.value):
-                        note(node, "augmented subscript assignment", ast.unparse(t))
+                        note(node, "augmented subscript assignment", ast.unparse(t), t.value)
                 elif isinstance(t, ast.Attribute):
                     if t.attr in ALLOWED_ATTR_AUG:
                         continue
@@ -146,16 +151,26 @@ class FrameScan(ast.NodeVisitor):
                     self.inplace_sites += 1
                     arg = node.args[INPLACE_CALLS[chain]] if node.args else None
                     if arg is None or not is_fresh_expr(arg):
-                        note(node, ".".join(chain), ast.unparse(arg) if arg is not None else "?")
+                        note(node, ".".join(chain), ast.unparse(arg) if arg is not None else "?", arg)
                 elif isinstance(f, ast.Attribute) and f.attr in INPLACE_METHODS:
                     self.inplace_sites += 1
                     if not is_fresh_expr(f.value):
-                        note(node, "method ." + f.attr, ast.unparse(f.value))
+                        note(node, "method ." + f.attr, ast.unparse(f.value), f.value)
+                # a call of a private helper that writes into one of its parameters is an in-place write on the argument passed there
+                callee = f.id if isinstance(f, ast.Name) else (f.attr if isinstance(f, ast.Attribute) else None)
+                if callee in self.writers:
+                    shift = 1 if isinstance(f, ast.Attribute) and isinstance(f.value, ast.Name) and f.value.id in ("self", "cls") else 0
+                    for pidx in sorted(self.writers[callee]):
+                        k_ = pidx - shift
+                        arg = node.args[k_] if 0 <= k_ < len(node.args) else None
+                        self.inplace_sites += 1
+                        if arg is None or not is_fresh_expr(arg):
+                            note(node, "call of %s, which writes into its parameter %d," % (callee, pidx), ast.unparse(arg) if arg is not None else "?", arg)
                 for kw in node.keywords:
                     if kw.arg == "out":
                         self.inplace_sites += 1
                         if not is_fresh_expr(kw.value):
-                            note(node, "out= argument", ast.unparse(kw.value))
+                            note(node, "out= argument", ast.unparse(kw.value), kw.value)
         # nested functions see the enclosing fresh names that are never re-bound (closures over operands are NOT fresh)
         for node in self._direct_nested(fn):
             self.scan_function(node, frozenset(), qual)
@@ -234,14 +249,27 @@ def static_part(run):
         path = os.path.join(REPO, rel)
         src = open(path).read()
         tree = ast.parse(src)
-        sc = FrameScan(rel)
-        for node in tree.body:
-            if isinstance(node, ast.FunctionDef):
-                sc.scan_function(node)
-            elif isinstance(node, ast.ClassDef):
-                for m in node.body:
-                    if isinstance(m, ast.FunctionDef):
-                        sc.scan_function(m, qual=node.name)
+        # interprocedural step for private helpers: a helper that writes into a parameter is not judged on its own (it cannot know what it is given) but at each of its call
+        # sites in the file, where the argument must be a locally allocated array; iterated to a fixed point (helpers calling helpers)
+        writers = {}
+        for _round in range(6):
+            sc = FrameScan(rel, writers)
+            for node in tree.body:
+                if isinstance(node, ast.FunctionDef):
+                    sc.scan_function(node)
+                elif isinstance(node, ast.ClassDef):
+                    for m in node.body:
+                        if isinstance(m, ast.FunctionDef):
+                            sc.scan_function(m, qual=node.name)
+            new = {}
+            for f_ in sc.findings:
+                if f_["private"] and f_["param_index"] is not None:
+                    new.setdefault(f_["fn_name"], set()).add(f_["param_index"])
+            if new == writers:
+                break
+            writers = new
+        called = {(n.func.id if isinstance(n.func, ast.Name) else n.func.attr) for n in ast.walk(tree) if isinstance(n, ast.Call) and isinstance(n.func, (ast.Name, ast.Attribute))}
+        sc.findings = [f_ for f_ in sc.findings if not (f_["private"] and f_["param_index"] is not None and f_["fn_name"] in called)]
         total_sites += sc.inplace_sites
         total_fns += sc.functions
         run.add_counts(obligations=sc.inplace_sites - len(sc.findings), discharged=sc.inplace_sites - len(sc.findings), backend="static-ast")
